@@ -102,7 +102,7 @@ def _post_attach(self, self_bond_idx, other, other_bond_idx, result, OLD):
     d1, a1, n1, w1, t1 = o["open"][self_bond_idx]
     d2, a2, n2, w2, t2 = o["oopen"][other_bond_idx]
     N = o["n"]
-    ev = {"d1": d1, "d2": d2, "a1": a1, "a2": a2 + N, "n_before": N, "n_other": len(o["oatoms"]), "order": d1[2], "node1": n1, "node2": n2 + o["gn"], "mass_before": o["mass"], "mass_after": result.weight, "oid": id(result)}
+    ev = {"d1": d1, "d2": d2, "a1": a1, "a2": a2 + N, "n_before": N, "n_other": len(o["oatoms"]), "order": d1[2], "node1": n1, "node2": n2 + o["gn"], "mass_before": o["mass"], "mass_after": result.weight, "oid": id(result), "n_open_after": len(result.bond_descriptors), "other_token": getattr(other, "_gbv_token", None)}
     eid = trace.emit("attach", **ev)
     result._gbv_hist = o["hist"] + o["ohist"] + [eid]
     if not (rc.compat(d1, d2) and rc.compat(d2, d1)):
@@ -196,6 +196,7 @@ def install():
             trace.violation("c10.molgen-shares-descriptor-with-token", f"MolGen({tok}) holds the token's own descriptor objects instead of copies")
         eid = trace.emit("new_residue", token=str(tok), tok_id=id(tok), res_id=getattr(tok, "res_id", None), n_atoms=self._mol.GetNumAtoms(), n_desc=len(self.bond_descriptors), mass=self.weight)
         self._gbv_hist = [eid]
+        self._gbv_token = str(tok)
         if len(self.graph) != 1:
             trace.violation("c05.molgen-init-graph", f"new MolGen has {len(self.graph)} graph nodes")
 
@@ -213,10 +214,11 @@ def install():
         if bond is not None and not rc.compat(rc.lib_triple(bond), rc.lib_triple(chosen)):
             trace.violation("c04.choose-incompatible", f"choose_compatible_weight returned {rc.lib_triple(chosen)} for {rc.lib_triple(bond)}")
         ce = [e for e in trace.events[n0:] if e["k"] == "choice"]
-        info = {"n": len(bond_descriptors), "bond": None if bond is None else rc.lib_triple(bond), "idx": int(idx), "cands": [(rc.lib_triple(b), float(b.weight)) for b in bond_descriptors]}
+        info = {"n": len(bond_descriptors), "bond": None if bond is None else rc.lib_triple(bond), "idx": int(idx), "cands": [(rc.lib_triple(b), float(b.weight), None if b.transitions is None else [float(x) for x in b.transitions]) for b in bond_descriptors]}
         if ce:
             e = ce[-1]
             info["p_taken"] = None if e["p"] is None or e["pos"] is None else e["p"][e["pos"]]
+            info["p"] = e["p"]
             if info["p_taken"] is not None and info["p_taken"] <= 0:
                 trace.violation("c08.zero-probability-option-taken", f"an option with probability {info['p_taken']} was taken: {info}")
         trace.emit("ccw", **info)
